@@ -2,11 +2,13 @@ package main
 
 import (
 	"bytes"
+	"context"
 	"encoding/json"
 	"fmt"
 	"iter"
 	"sort"
 	"strings"
+	"time"
 
 	"github.com/ddddddO/gtree"
 	"github.com/fatih/color"
@@ -28,6 +30,7 @@ type hop struct {
 }
 
 var c13Jail *fsx.Jail
+var c13MassiveHung bool
 
 func hasInvalidName(n *model.Node) bool {
 	if n.Name == "" || n.Name == "." || n.Name == ".." || strings.Contains(n.Name, "/") {
@@ -94,6 +97,25 @@ func (w *c13World) observe(k string, t int) (got, want string, pan string) {
 			wr = append(wr, fmt.Sprintf("%s|%s|%d|%v", r.Line, r.Path, r.Level, r.HasChild))
 		}
 		return fmt.Sprintf("%q err=%v", rows, err), fmt.Sprintf("%q err=<nil>", wr), p
+	case "P":
+		// text output with the massive option (a single root: the result is schedule-independent); guarded by a
+		// 60 s timeout because it runs on real goroutines
+		if c13MassiveHung {
+			return "skipped", "skipped", ""
+		}
+		var buf bytes.Buffer
+		var err error
+		done := make(chan string, 1)
+		go func() {
+			done <- sut.Guard(func() { err = gtree.OutputFromRoot(&buf, root, gtree.WithMassive(context.Background())) })
+		}()
+		select {
+		case p := <-done:
+			return fmt.Sprintf("%q err=%v", buf.String(), err), fmt.Sprintf("%q err=<nil>", model.RenderRoot(m, model.DefaultFmt)), p
+		case <-time.After(60 * time.Second):
+			c13MassiveHung = true
+			return "massive OutputFromRoot did not return within 60 s", "a result", ""
+		}
 	case "R":
 		// range over the sequence obtained earlier by step S: it describes the tree as it is NOW, with the default
 		// branch strings, whatever was called in between
@@ -243,7 +265,7 @@ func init() {
 		const maxNodes = 4
 		c.Bound("history_length", fmt.Sprint(maxL))
 		c.Bound("nodes_per_tree", fmt.Sprint(maxNodes))
-		obs := []string{"T", "W", "J", "D", "F", "K"}
+		obs := []string{"T", "W", "J", "D", "F", "K", "P"}
 		addNames := []string{"a", "b", "x/y"} // "x/y" is a legal node name for output and walk, invalid for mkdir/verify
 		// kids[t][node][name] tracks which Adds create nodes, so node indices are exact
 		type st struct {
@@ -267,6 +289,9 @@ func init() {
 						ob = append(append([]string{}, obs...), "R")
 					}
 					for _, k := range ob {
+						if k == "P" && len(hist) > 5 {
+							continue // the massive text output (real goroutines) is observed on histories of up to 6 steps
+						}
 						if k == "K" {
 							// the real mkdir (a jail per case) is explored where validation state can matter:
 							// histories with the hostile name, or with a dry-run / verify step before
@@ -332,6 +357,9 @@ func init() {
 				// operations in the middle of a history (they reset library-internal state)
 				for _, k := range []string{"T", "W", "D", "V", "F"} {
 					rec(append(hist, hop{K: k, T: t}), s, L)
+				}
+				if len(hist) <= 2 {
+					rec(append(hist, hop{K: "P", T: t}), s, L)
 				}
 				if len(hist) <= 4 && t == 0 {
 					rec(append(hist, hop{K: "X", T: t}), s, L)
